@@ -4,6 +4,7 @@ mod gcommit;
 mod gcommit_api;
 mod plock;
 mod sched;
+mod sqlrun;
 mod util;
 mod wal;
 
@@ -21,6 +22,7 @@ fn main() {
         "plock-replay" => plock::replay(&args),
         "freelist-replay" => freelist::replay(&args),
         "gc-replay" => gcommit::replay(&args),
+        "sql-run" => sqlrun::run(&args),
         "wal-faults" => wal::fault_sweep(&args),
         other => {
             eprintln!("unknown subcommand {}", other);
